@@ -101,6 +101,30 @@ func curOf(c int) cur { return cur{c, pad(c)} }
 
 var cursorType = reflect.TypeOf(cur{})
 
+// tagCur is a second, NOT HASHABLE cursor type (a struct holding a slice): legal — cursors are only
+// ever ordered by cursorLess and (un)marshalled — and used by the `tagCursor` connection.
+type tagCur struct {
+	K    int
+	Tags []string
+}
+
+func tagCurOf(c int) tagCur { return tagCur{c, []string{"t" + pad(c), "x"}} }
+
+var tagCursorType = reflect.TypeOf(tagCur{})
+
+func tagLess(a, b any) bool { return a.(tagCur).K < b.(tagCur).K }
+
+// activeField selects the codec `emit` / `decode` speak: the cursor type of the connection field the
+// current case is served by (set by evalServedObs).
+var activeField string
+
+func emitFor(field string, c int) string {
+	if field == "tagCursor" {
+		return emitAny(tagCurOf(c))
+	}
+	return emitAny(curOf(c))
+}
+
 type getterCall struct {
 	After  *int  `json:"after"`
 	Before *int  `json:"before"`
@@ -304,6 +328,16 @@ func (w *world) addPlain(cfg *apifu.Config) {
 			EdgeFields: edgeFieldDefs(),
 		}))
 	}
+	cfg.AddQueryField("tagCursor", apifu.Connection(&apifu.ConnectionConfig{
+		NamePrefix: "TagCursor",
+		ResolveAllEdges: func(ctx graphql.FieldContext) (any, func(a, b any) bool, error) {
+			w.allCalls++
+			return w.items(w.E), tagLess, nil
+		},
+		CursorType: tagCursorType,
+		EdgeCursor: func(edge any) any { return tagCurOf(edge.(item).C) },
+		EdgeFields: edgeFieldDefs(),
+	}))
 	cfg.AddQueryField("fwdOnly", apifu.Connection(&apifu.ConnectionConfig{
 		NamePrefix:      "FwdOnly",
 		Direction:       apifu.ConnectionDirectionForwardOnly,
@@ -409,7 +443,7 @@ type Req struct {
 	// a promise. (An untyped nil is not a slice: completeConnection answers it with an error.)
 	NilEmpty bool `json:"nil_empty"`
 	// which of the process's APIs serves the request (see newWorld), and — when not "" — which
-	// connection field instead of the plain <mode><Sync|Promise> one: fwdOnly | bwdOnly | customAll |
+	// connection field instead of the plain <mode><Sync|Promise> one: tagCursor | fwdOnly | bwdOnly | customAll |
 	// customFwd | customBwd (all of them ResolveAllEdges connections)
 	World int    `json:"world"`
 	Field string `json:"field,omitempty"`
@@ -623,11 +657,7 @@ func (w *world) serve(E []int, policy int, policySeed uint64, r Req) (o servedOb
 // ---- cursor codec (the real one) -----------------------------------------------------------------
 
 func emit(c int) string {
-	s, err := apifu.SerializeCursor(curOf(c))
-	if err != nil {
-		panic(err)
-	}
-	return s
+	return emitFor(activeField, c)
 }
 
 // emitAny serialises an arbitrary value with the real codec (to build foreign cursor strings).
@@ -646,6 +676,13 @@ func decode(s string) (c int, ok bool, panicked string) {
 			panicked = fmt.Sprint(p)
 		}
 	}()
+	if activeField == "tagCursor" {
+		v := apifu.DeserializeCursor(tagCursorType, s)
+		if v == nil {
+			return 0, false, ""
+		}
+		return v.(tagCur).K, true, ""
+	}
 	v := apifu.DeserializeCursor(cursorType, s)
 	if v == nil {
 		return 0, false, ""
